@@ -10,6 +10,12 @@ from fractions import Fraction
 from vf.core import Check
 
 from coba.encodings import InteractionsEncoder
+from coba.primitives import Categorical
+
+
+class UserStr(str):
+    """A user's own str subclass (str-valued Enum members, numpy.str_, ... are strings too)."""
+    __slots__ = ()
 
 PRIMES_X = [2, 3, 5, 7, 11, 13]
 PRIMES_A = [17, 19, 23, 29, 31, 37]
@@ -31,6 +37,7 @@ def value_shapes(maxlen):
     shapes += [('sparse_str', n) for n in (1, 2, 3)] + [('sparse_int', 2), ('sparse_empty',)]
     shapes += [('str',), ('dense_str', 2), ('sparse_strval', 2)]
     shapes += [('dense_str_last', 2), ('dense_str_mid', 3), ('tuple_str_last', 3)]      # strings not in first position
+    shapes += [('cat',), ('dense_cat_last', 2), ('sparse_catval', 2), ('userstr_first', 2)]      # string values of a str SUBCLASS (coba's Categorical)
     return shapes
 
 
@@ -50,11 +57,16 @@ def render(shape, primes):
     if k == 'dense_str_last': return [primes[0], 'u']
     if k == 'dense_str_mid': return [primes[0], 'u', primes[1]]
     if k == 'tuple_str_last': return (primes[0], primes[1], 'u')
+    if k == 'cat': return Categorical('s', ['r', 's'])
+    if k == 'dense_cat_last': return [primes[0], Categorical('u', ['u', 'w'])]
+    if k == 'sparse_catval': return {'k0': Categorical('v', ['t', 'v']), 'k1': primes[0]}
+    if k == 'userstr_first': return [UserStr('u'), primes[0]]
     raise ValueError(shape)
 
 
 def is_sparse_shape(shape):
-    return shape[0] in ('sparse_str', 'sparse_int', 'sparse_empty', 'str', 'dense_str', 'sparse_strval', 'dense_str_last', 'dense_str_mid', 'tuple_str_last')
+    return shape[0] in ('sparse_str', 'sparse_int', 'sparse_empty', 'str', 'dense_str', 'sparse_strval', 'dense_str_last', 'dense_str_mid', 'tuple_str_last',
+                        'cat', 'dense_cat_last', 'sparse_catval', 'userstr_first')
 
 
 def features(value):
@@ -88,7 +100,7 @@ class C20(Check):
     LEVEL = 'exploration'
     RULE = ('cases = ordered lists of distinct terms over {x,a} (length<=4 each) with an optional numeric constant at every '
             'position x every pair of namespace shapes (dense primes len 0..N, tuple, scalar, None, absent, sparse str/int keys, '
-            'string, dense-with-string, sparse-with-string-value), enumerated exhaustively simplest first; a case is non-trivial '
+            'string, dense-with-string, sparse-with-string-value, the same with values of a str subclass: Categorical / user class), enumerated exhaustively simplest first; a case is non-trivial '
             'when the expected expansion has >=2 monomials and some term has degree >=2 or crosses both namespaces')
     ASSUMPTIONS = ['feature values are distinct primes so every monomial has a unique value',
                    'order of monomials inside one term block and spelling of sparse keys are not constrained',
@@ -123,7 +135,7 @@ class C20(Check):
                         if n == 3 and c is not None and pos not in (0, 3): continue
                         for sx in shapes:
                             for sa in shapes:
-                                heavy = ('tuple', 'sparse_int', 'sparse_empty', 'dense_str', 'dense_str_mid', 'tuple_str_last')
+                                heavy = ('tuple', 'sparse_int', 'sparse_empty', 'dense_str', 'dense_str_mid', 'tuple_str_last', 'dense_cat_last', 'sparse_catval', 'userstr_first')
                                 if n == 3 and (sx[0] in heavy or sa[0] in heavy): continue
                                 yield {'terms': full, 'x': list(sx), 'a': list(sa)}
         yield from self.reuse_cases(tier)
@@ -262,11 +274,13 @@ class C20(Check):
             if const:
                 if got.pop('const', None) != const:
                     acc.violation('encode|constant missing|sparse', f'expected const={const} in {out}'); return
+            if any(isinstance(v, str) or not isinstance(v, (int, float)) for v in got.values()):
+                acc.violation(f'encode|feature value is not a number|sparse {tag}', f'got {got}'); return
             gotc = Counter(got.values())
             if not (sum(lo.values()) <= len(got) <= sum(hi.values())):
                 acc.violation(f'encode|wrong number of monomials|sparse {tag}', f'expected {sum(lo.values())}..{sum(hi.values())} keys, got {len(got)}: {got}'); return
             if any(not (lo.get(v, 0) <= gotc.get(v, 0) <= hi.get(v, 0)) for v in set(gotc) | set(lo)):
-                acc.violation(f'encode|wrong monomial values|sparse {tag}', f'expected {sorted(exp.values())}, got {sorted(got.values())}'); return
+                acc.violation(f'encode|wrong monomial values|sparse {tag}', f'expected {sorted(exp.values(), key=repr)}, got {sorted(got.values(), key=repr)}'); return
             # key <-> monomial consistency: the same key must name the same feature multiset under other feature values
             _, out2 = self.encode(terms, sx, sa, PRIMES_X2, PRIMES_A2)
             feats2 = {'x': features(render(sx, PRIMES_X2) if sx[0] != 'absent' else None),
